@@ -4,6 +4,8 @@ import (
 	"fmt"
 	"grog/internal/config"
 	"grog/internal/model"
+	"os"
+	"path/filepath"
 	"slices"
 	"strings"
 )
@@ -24,7 +26,35 @@ func GetTargetChangeHash(target model.Target, dependencyHashes []string) (string
 	if err != nil {
 		return "", fmt.Errorf("failed hashing input files %s for target %s: %w", strings.Join(target.Inputs, ","), target.Label, err)
 	}
-	return fmt.Sprintf("%s_%s", targetDefinitionHash, inputContentHash), err
+	inputLayoutHash, err := hashInputLayout(absolutePackagePath, target.Inputs)
+	if err != nil {
+		return "", fmt.Errorf("failed hashing input layout for target %s: %w", target.Label, err)
+	}
+
+	return fmt.Sprintf("%s_%s_%s", targetDefinitionHash, inputContentHash, inputLayoutHash), err
+}
+
+// hashInputLayout hashes which input files exist and how large each one is.
+// HashFiles only sees the concatenated contents, so without this, moving bytes from the end of
+// one input to the start of the next (or replacing an empty input by a missing one) would not
+// change the change hash.
+func hashInputLayout(absolutePackagePath string, inputs []string) (string, error) {
+	sortedInputs := slices.Clone(inputs)
+	slices.Sort(sortedInputs)
+	hasher := GetHasher()
+	for _, input := range sortedInputs {
+		info, err := os.Stat(filepath.Join(absolutePackagePath, input))
+		switch {
+		case err == nil:
+			_, err = hasher.WriteString(fmt.Sprintf("%d:%s=%d;", len(input), input, info.Size()))
+		case os.IsNotExist(err):
+			_, err = hasher.WriteString(fmt.Sprintf("%d:%s=missing;", len(input), input))
+		}
+		if err != nil {
+			return "", err
+		}
+	}
+	return hasher.SumString(), nil
 }
 
 // hashTargetDefinition computes the configured hash of a single file.
